@@ -576,7 +576,7 @@ def check(pid, tier, seed, t0, st, replay):
     finally:
         subprocess.run(['chmod', '-R', 'u+rwx', work], capture_output=True)
         shutil.rmtree(work, ignore_errors=True)
-    res.assumptions = ['the Go scheduler, channel implementation and memory model are modelled (Scan/Pool.v, hand-abstracted from Initialize), not verified; tied to the code by forced-order and jittered runs only',
+    res.assumptions = ['the semantics of goroutines, buffered channels, close, range, select and wait groups is written by hand once, generically, from the Go specification (Scan/SkelSem.v); the program it is applied to is extracted from graph.Initialize on every run, and Scan/Pool.v is PROVED a sound and complete abstraction of that program under that semantics (SkelSim.v, SkelTerm.v, SkelCompl.v); the Go runtime implementing that semantics, scheduler fairness and the memory model are outside; tied to the code by forced-order and jittered runs',
                        'kernel permission semantics and symlink resolution are exercised, not modelled',
                        'hypothesis keys_distinct (no identity shared by two files) is evaluated on every campaign project']
     return finish(pid, tier, seed, t0, res, obl)
